@@ -248,8 +248,15 @@ def gen_props(rng, name=None, extra=()):
 
 
 def gen_pd(rng, shape, name=None, allow_comp=False, allow_str=True):
-    return {"props": gen_props(rng, name), "data": gen_data(rng, shape, allow_str, allow_comp),
-            "ext": False, "ncvar": rng.choice([None, None, "v1", "lat"])}
+    p = {"props": gen_props(rng, name), "data": gen_data(rng, shape, allow_str, allow_comp),
+         "ext": False, "ncvar": rng.choice([None, None, "v1", "lat"])}
+    d = p["data"]
+    if d["units"] is not None:
+        p["props"].append(["units", {"s": d["units"]}])
+    if d["cal"] is not None:
+        p["props"].append(["calendar", {"s": d["cal"]}])
+    sync_pd(p)
+    return p
 
 
 def gen_cons(rng, cls, shape, name=None, allow_comp=False, simple=False):
@@ -259,7 +266,6 @@ def gen_cons(rng, cls, shape, name=None, allow_comp=False, simple=False):
         if rng.random() < (0.3 if simple else 0.5):
             b = gen_pd(rng, list(shape) + [2], None, allow_str=False)
             b["props"] = [] if rng.random() < 0.6 else gen_props(rng)
-            b["data"]["units"] = c["pd"]["data"]["units"]
             c["bounds"] = b
         if cls == "aux" and not simple and rng.random() < 0.2:
             c["geom"] = rng.choice(["polygon", "line", "point"])
@@ -370,6 +376,8 @@ def gen_field(rng, isfield=True, twin=False):
             dax = dax[:-1]
         f["daxes"] = dax
         f["data"] = gen_data(rng, [size[a] for a in dax], allow_str=False)
+        if f["data"]["units"] is not None:
+            f["props"].append(["units", {"s": f["data"]["units"]}])
     if isfield:
         for i in range(rng.choice([0, 0, 1, 2])):
             f["cms"].append([f"cellmethod{i}", gen_cm(rng, [a for a, _ in axes])])
@@ -404,14 +412,86 @@ def gen_opts(rng, loose_p=0.35):
     return o
 
 
+
+# ---- the data's units, calendar and fill value are taken from the parent's properties --------
+def _pget(props, name):
+    for k, v in props:
+        if k == name:
+            return v
+    return None
+
+
+def sync_pd(p, inherit=None, bounds=False):
+    """core PropertiesData.get_data copies units/calendar/missing_value|_FillValue of the parent
+    onto the data; Bounds.get_data falls back on the parent coordinate's units and calendar."""
+    d = p.get("data")
+    if d is None:
+        return
+    for key, name in (("units", "units"), ("cal", "calendar")):
+        v = _pget(p["props"], name)
+        val = v["s"] if v is not None and "s" in v else None
+        if val is None and inherit is not None:
+            w = _pget(inherit, name)
+            val = w["s"] if w is not None and "s" in w else None
+        d[key] = val
+    fv = _pget(p["props"], "missing_value")
+    if fv is None:
+        fv = _pget(p["props"], "_FillValue")
+    d["fill"] = fv["vals"][0] if fv is not None and "vals" in fv else None
+
+
+def sync_cons(c):
+    sync_pd(c["pd"])
+    if c.get("bounds") is not None:
+        sync_pd(c["bounds"], inherit=c["pd"]["props"])
+    if c.get("iring") is not None:
+        sync_pd(c["iring"])
+
+
+def sync_top(t):
+    k, v = t["k"], t["v"]
+    if k == "cons":
+        sync_cons(v)
+    elif k == "bounds":
+        sync_pd(v)
+    elif k == "field":
+        if v.get("data") is not None:
+            sync_pd(v)
+        for _, _, c in v["cons"]:
+            sync_cons(c)
+    return t
+
+
+def set_prop(props, name, val):
+    for kv in props:
+        if kv[0] == name:
+            if val is None:
+                props.remove(kv)
+            else:
+                kv[1] = {"s": val}
+            return
+    if val is not None:
+        props.append([name, {"s": val}])
+
 # ---- perturbations --------------------------------------------------------------------------
 def unmasked_positions(a):
     return [i for i, v in enumerate(a["vals"]) if v is not None]
 
 
-def p_data(rng, d, which):
-    """Perturb a data description in place; returns the class actually applied or None."""
+def p_data(rng, d, which, props=None):
+    """Perturb a data description in place; returns the class actually applied or None.
+    props: the parent's property list when the data belong to a construct (units, calendar
+    and fill value then live there)."""
     a = d["arr"]
+    if props is not None:
+        if which == "datafill":
+            return None
+        if which == "units":
+            set_prop(props, "units", "km" if d.get("units") != "km" else None)
+            return which
+        if which == "calendar":
+            set_prop(props, "calendar", "julian" if d.get("cal") != "julian" else None)
+            return which
     if d.get("comp") and which in ("datum_far", "datum_near", "mask", "shape"):
         return None
     if which in ("datum_far", "datum_near"):
@@ -430,7 +510,10 @@ def p_data(rng, d, which):
         a["vals"][i] = None if a["vals"][i] is not None else 5
         return which
     if which == "shape":
-        a["shape"] = list(a["shape"]) + [1] if rng.random() < 0.5 or len(a["shape"]) < 2 else [a["shape"][1], a["shape"][0]] + a["shape"][2:]
+        if rng.random() < 0.5 or len(a["shape"]) < 2 or a["shape"][0] == a["shape"][1]:
+            a["shape"] = list(a["shape"]) + [1]
+        else:
+            a["shape"] = [a["shape"][1], a["shape"][0]] + a["shape"][2:]
         return which
     if which == "dtype":
         swap = {"i4": "i8", "i8": "i4", "f4": "f8", "f8": "f4", "i2": "i4", "i1": "i2"}
@@ -504,7 +587,7 @@ def p_cons(rng, c, which=None, infield=False):
     if which.startswith("prop_"):
         return p_props(rng, c["pd"]["props"], which)
     if which in DATA_P or which in ("shape", "uncompress"):
-        r = p_data(rng, c["pd"]["data"], which)
+        r = p_data(rng, c["pd"]["data"], which, props=c["pd"]["props"])
         if r == "shape":
             c["bounds"] = None
             c["iring"] = None
@@ -526,7 +609,7 @@ def p_cons(rng, c, which=None, infield=False):
     if which == "bounds_datum":
         if c["bounds"] is None:
             return None
-        return "bounds_datum" if p_data(rng, c["bounds"]["data"], "datum_far") else None
+        return "bounds_datum" if p_data(rng, c["bounds"]["data"], "datum_far", props=c["bounds"]["props"]) else None
     if which == "bounds_prop":
         if c["bounds"] is None:
             return None
@@ -546,7 +629,7 @@ def p_cons(rng, c, which=None, infield=False):
             c["iring"] = ir
         elif rng.random() < 0.5:
             c["iring"] = None
-        elif not p_data(rng, c["iring"]["data"], "datum_far"):
+        elif not p_data(rng, c["iring"]["data"], "datum_far", props=c["iring"]["props"]):
             c["iring"] = None
         return which
     if which == "measure":
@@ -585,7 +668,10 @@ def expected_for(pclass, o, level):
         ign = ign + list(FILL_NAMES)
     if level == "fieldprop":
         ign.append("Conventions")
-    if base in ("prop_value", "prop_add", "prop_del", "prop_fill"):
+    if base == "prop_fill":
+        # the fill value is also an attribute of the data: only ignore_fill_value removes it
+        return True if (o.get("ifv") and level != "cm") else (None if pclass.split(":")[1] in ign else False)
+    if base in ("prop_value", "prop_add", "prop_del"):
         return pclass.split(":")[1] in ign
     if base == "dtype":
         return bool(o.get("idt"))
@@ -841,7 +927,7 @@ def p_field(rng, f, which=None):
     if which == "fdata":
         if g.get("data") is None:
             return None
-        r = p_data(rng, g["data"], rng.choice(DATA_P))
+        r = p_data(rng, g["data"], rng.choice(DATA_P), props=g["props"])
         return (g, "fdata:" + r) if r else None
     return None
 
@@ -852,7 +938,7 @@ def near_expected(x, y, o, path):
 
 
 def mk_case(fam, kind, x, y, o, pclass, level, extra=False, exp=None):
-    return {"fam": fam, "x": {"k": kind, "v": x}, "y": {"k": kind, "v": y}, "opts": effective_opts(kind, o),
+    return {"fam": fam, "x": sync_top({"k": kind, "v": x}), "y": sync_top({"k": kind, "v": y}), "opts": effective_opts(kind, o),
             "pclass": pclass, "level": level, "extra": extra, "exp": exp}
 
 
@@ -935,7 +1021,7 @@ def generate(chk):
     # (a) single constructs: identical, every single perturbation, full option grid
     for _ in range(900 * scale):
         cls = rng.choice(["dim", "aux", "aux", "domanc", "meas", "fanc", "dtop", "cconn"])
-        shape = rng.choice([[3], [2], [2, 3], [1], [3, 3], []])
+        shape = rng.choice([[3], [2], [2, 3], [1], [3, 3], []]) if cls != "dim" else rng.choice([[3], [2], [1]])
         x = gen_cons(rng, cls, shape, rng.choice(NAMES), allow_comp=(rng.random() < 0.25))
         if cls == "meas" and rng.random() < 0.15:
             x["pd"]["ext"] = True
@@ -978,7 +1064,7 @@ def generate(chk):
         elif which.startswith("prop_"):
             pc = p_props(rng, y["props"], which)
         else:
-            pc = p_data(rng, y["data"], which)
+            pc = p_data(rng, y["data"], which, props=y["props"])
         if pc is None:
             continue
         cases.append(mk_case("bounds", "bounds", x, y, o, pc, "top", exp=True if pc == "identical" else None))
@@ -1098,7 +1184,8 @@ def generate(chk):
                 return gen_field(rng, rng.random() < 0.7)
             return rng.choice(["str", "none", "int", "list"])
         o = gen_opts(rng)
-        mixed.append({"fam": "other-type", "x": {"k": kx, "v": one(kx)}, "y": {"k": ky, "v": one(ky)},
+        o["itype"] = False      # type(self)(source=<non-construct>) is outside the property
+        mixed.append({"fam": "other-type", "x": sync_top({"k": kx, "v": one(kx)}), "y": sync_top({"k": ky, "v": one(ky)}),
                       "opts": effective_opts(kx, o), "pclass": "othertype", "level": "top", "extra": False, "exp": None})
     for _ in range(60 * scale):
         # two different construct classes (incl. ignore_type between unrelated classes: totality only)
@@ -1185,8 +1272,19 @@ def oracle(chk, c, row):
                  {"input": c, "observed": row})
         bad = True
     # the answer the perturbation class demands
-    exp = c["exp"] if c.get("exp") is not None else expected_for(c["pclass"], o, c["level"]) \
-        if c["pclass"] not in ("unrelated", "othertype", "sizeless", "short-intervals", "corpus", "size", "cr_term_key_only") else None
+    pc, lvl = c["pclass"], c["level"]
+    if pc.startswith("cons:"):
+        pc, lvl = pc[5:], ("bounds" if pc[5:] == "bounds_prop" else "nested")
+    elif pc.startswith("fprop_"):
+        pc, lvl = pc[1:], "fieldprop"
+    elif pc.startswith("fdata:"):
+        pc = pc[6:]
+    if c.get("exp") is not None:
+        exp = c["exp"]
+    elif pc in ("unrelated", "othertype", "sizeless", "short-intervals", "corpus", "size", "cr_term_key_only"):
+        exp = None
+    else:
+        exp = expected_for(pc, o, lvl)
     if c["pclass"] == "othertype" and not o.get("itype") and c["x"]["k"] != "py":
         exp = False
     if c["pclass"] == "size":
